@@ -34,7 +34,7 @@ func genC18(t *rapid.T) E1Case {
 				}
 			}
 			if op.Op == "ctxwrite1" || op.Op == "ctxwritev" {
-				op.Ctx = rapid.SampledFrom([]string{"", "live", "live", "cancelled"}).Draw(t, "ctx")
+				op.Ctx = rapid.SampledFrom([]string{"", "live", "live", "cancelled", "deadline"}).Draw(t, "ctx")
 				live = live || op.Ctx == "live"
 			}
 			task.Ops = append(task.Ops, op)
@@ -119,6 +119,28 @@ func runC18(c E1Case) (out core.Outcome) {
 				return
 			}
 			r.cls.Add("probe:blocking-writer-waits")
+			// while that writer waits inside the enqueue, another waiting writer must stay cancellable
+			for _, t2 := range r.tasks {
+				td2, _ := t2.Data.(*e1TaskData)
+				if t2 == t || t2.Done() || t2.Label() != "enqueue.before" || td2 == nil || td2.call == nil || td2.call.Op.Ctx != "live" {
+					continue
+				}
+				for _, cancel := range r.liveCtx {
+					cancel()
+				}
+				old := r.s.Watchdog
+				r.s.Watchdog = 2 * time.Second
+				e1cur = r
+				_, err := r.s.StepTask(t2)
+				e1cur = nil
+				r.s.Watchdog = old
+				if err != nil {
+					out.Violation = core.Viol("C18/waiting-writer-not-cancellable", "%s was waiting for queue space behind another waiting writer; after its context was cancelled it did not return within 2 s: %v", td2.call.Op.Op, err)
+					return
+				}
+				r.cls.Add("probe:second-waiter-cancelled")
+				break
+			}
 			break
 		}
 	}
